@@ -43,7 +43,7 @@ ASSUMPTIONS = [
     "reference matcher with leaf labels in vf/models/dimlang.py + vf/models/ptcheck.py",
 ]
 
-WRAPS = ["plain", "union", "tuple", "nested", "lazy", "optional", "newtype", "ntfield", "plain"]
+WRAPS = ["plain", "union", "tuple", "nested", "lazy", "optional", "newtype", "ntfield", "extended", "plain"]
 _NT_CLS = {}
 
 
@@ -77,6 +77,12 @@ class LazyArr:
 def leaf_annotation(spec, wrap):
     if wrap == "lazy":
         return Shaped[LazyArr, spec]
+    if wrap == "extended":
+        # the annotation extends another one; the '?' axis may sit in the inner (wrapped) annotation: Shaped[Shaped[A, "<tail>"], "<head>"]
+        toks = spec.split()
+        k = next((i for i, t in enumerate(toks) if "?" in t.split("=")[-1][:4] or "?" in t), len(toks))
+        k = min(k, max(0, len(toks) - 1))
+        return Shaped[Shaped[np.ndarray, " ".join(toks[k:])], " ".join(toks[:k])]
     base = Shaped[np.ndarray, spec]
     if wrap == "plain":
         return base
@@ -244,6 +250,20 @@ def check_misuse(ctx, case):
         # the same ambiguity, but the first leaf of the inner tree is accepted without its '?' axis ever being looked at (an int)
         with jaxtyped("context"):
             got = obs.verdict((7, a3, a4), PyTree[PyTree[Union[int, base], "S"], "T"])
+    elif form in ("prefix-structure", "suffix-structure", "composite-structure"):
+        # exactly ONE structured PyTree encloses the axis, its structure is written in composite / prefix / suffix form: that is a
+        # legitimate use, the check must answer (True here: the '?' axis may differ per leaf), not raise AnnotationError
+        sname = {"prefix-structure": "T ...", "suffix-structure": "... T", "composite-structure": "S T"}[form]
+        with jaxtyped("context"):
+            assert isinstance((1, 2), PyTree[int, "T"]) and isinstance(5, PyTree[int, "S"])
+            got = obs.verdict((a3, a4), PyTree[base, sname])
+        ctx.note(["misuse", form, spec], True, classes=[f"structure-form-{form}"])
+        if got != dl.TRUE:
+            raise Violation("misuse", case, f"'?' axis under the single structured PyTree[{spec!r}, {sname!r}] (T=(*,*), S=*): {got} instead of True")
+        v = obs.verdict(np.zeros((3,)), Shaped[np.ndarray, "?vf_probe"])
+        if v != dl.ANNERR:
+            raise Violation("label-leaked", case, f"after form {form}: bare '?' check gave {v}")
+        return
     elif form == "decorated-no-structure":
         def f(x):
             pass
@@ -381,7 +401,7 @@ def run(ctx):
     ctx.hyp(cases, max_examples=ctx.n(500, 3000))
 
     @given(st.fixed_dictionaries({
-        "misuse": st.sampled_from(["bare", "no-structure", "two-structures", "decorated-no-structure", "two-structures-late"]),
+        "misuse": st.sampled_from(["bare", "no-structure", "two-structures", "decorated-no-structure", "two-structures-late", "prefix-structure", "suffix-structure", "composite-structure"]),
         "spec": st.sampled_from(["?foo", "*?foo", "a ?foo", "?a ?foo", "#?foo 3", "?foo ..."]),
         "checker": st.sampled_from(["typeguard", "beartype"]),
     }))
